@@ -389,7 +389,7 @@ theorem parse_legacy_reg (m64 : Bool) (r : Rule) (pp : Nat) (rex : Option (BitVe
     | some b => exact absurd (h32 rfl) (by simp)
 
 /-- rule side: a legacy-space /r form, `nimm` immediate bytes, whose mandatory / operand-size prefix is `pp` (0 none, 1 66, 2 F3, 3 F2) -/
-structure LegRule (rule : Rule) (nimm pp : Nat) : Prop where
+structure LegRuleD (rule : Rule) (nimm pp d : Nat) : Prop where
   hmodes : rule.modes &&& 2 ≠ 0
   hs : rule.space = 0
   hpp8 : rule.pp &&& 8 = 0
@@ -399,13 +399,16 @@ structure LegRule (rule : Rule) (nimm pp : Nat) : Prop where
   hpplt : pp < 4
   hri : rule.ri = false
   hmk : rule.modKind = 1 ∨ rule.modKind = 2
-  hmr : rule.modr = 8
+  hmr : rule.modr = d
   hmrm : rule.modrm = 8
   himm : rule.immBytes = nimm
   hrel : rule.relBytes = 0
   hmoff : rule.moff = false
   ha67 : rule.a67 = false
   hrev : rule.immRev = false
+
+/-- rule side of a legacy `/r` form (no ModRM.reg digit) -/
+abbrev LegRule (rule : Rule) (nimm pp : Nat) : Prop := LegRuleD rule nimm pp 8
 
 /-- what the parser returned for a legacy register form -/
 structure LegParsed (rule : Rule) (p : Parsed) (mb : BitVec 8) (pp : Nat) : Prop where
@@ -598,12 +601,12 @@ theorem parseModRM_mem (p : Parsed) (mb : BitVec 8) (sib : Option (BitVec 8)) (d
 def decodedDisp (r : Rule) (p : Parsed) : Int :=
   if p.dispSize == 0 then 0 else if p.dispSize == 1 then sextNat p.disp 8 * (if p.vexKind == 4 then disp8N r p else 1) else sextNat p.disp 32
 
-/-- `[base + disp]` with a 64-bit base register in 64-bit mode: the memory check of the monitor succeeds when the decoded base
+/-- `[base + disp]` with a 64-bit (or, `a32`, 32-bit + 67 prefix) base register in 64-bit mode: the memory check of the monitor succeeds when the decoded base
 register (ModRM.rm, or SIB.base with "no index" and scale 0) and the decoded displacement are the operand's -/
-theorem checkMem_base64 (c : Spec.X86.Ctx) (r : Rule) (p : Parsed) (m : MemOp) (mb : BitVec 8)
-    (hm64 : c.mode64 = true) (hno67 : p.prefixes.contains 0x67#8 = false) (ha16 : p.addr16 = false)
+theorem checkMem_base64 (c : Spec.X86.Ctx) (r : Rule) (p : Parsed) (m : MemOp) (mb : BitVec 8) (a32 : Bool)
+    (hm64 : c.mode64 = true) (hno67 : p.prefixes.contains 0x67#8 = a32) (ha16 : p.addr16 = false)
     (hmodrm : p.modrm = some mb) (hmod : bits mb 6 2 ≠ 3)
-    (hbk : m.baseKind = .gpq) (hik : m.indexKind = .none)
+    (hbk : m.baseKind = (if a32 then .gpd else .gpq)) (hik : m.indexKind = .none)
     (hfields : (p.sib = Option.none ∧ ¬ (bits mb 6 2 = 0 ∧ bits mb 0 3 = 5) ∧ regNum false p.B (bits mb 0 3) = m.baseId) ∨
                (∃ s, p.sib = some s ∧ ¬ (bits mb 6 2 = 0 ∧ bits s 0 3 = 5) ∧ regNum false p.B (bits s 0 3) = m.baseId ∧
                      regNum false p.X (bits s 3 3) = 4 ∧ bits s 6 2 = 0))
@@ -612,65 +615,131 @@ theorem checkMem_base64 (c : Spec.X86.Ctx) (r : Rule) (p : Parsed) (m : MemOp) (
   have hmod' : (bits mb 6 2 == 3) = false := by simpa using hmod
   have hvs : vsibOf m = .none := by simp [vsibOf, hik]
   unfold decodedDisp at hd
-  have hno67' : ¬ (0x67#8 ∈ p.prefixes) := by simpa using hno67
-  rcases hfields with ⟨hs, hn5, hb⟩ | ⟨s, hs, hn5, hb, hx, hsc⟩
-  · have hn5' : (bits mb 6 2 == 0 && bits mb 0 3 == 5) = false := by
-      simp only [Bool.and_eq_false_iff, beq_eq_false_iff_ne]; by_cases h : bits mb 6 2 = 0 <;> simp_all
-    simp [checkMem, hmodrm, hmod', hm64, hno67, hno67', ha16, hvs, hbk, hik, hs, hn5', hb, wantedAddrSize, bind, Except.bind, pure, Except.pure]
-    simpa using hd
-  · have hn5' : (bits mb 6 2 == 0 && bits s 0 3 == 5) = false := by
-      simp only [Bool.and_eq_false_iff, beq_eq_false_iff_ne]; by_cases h : bits mb 6 2 = 0 <;> simp_all
-    simp [checkMem, hmodrm, hmod', hm64, hno67, hno67', ha16, hvs, hbk, hik, hs, hn5', hb, hx, hsc, wantedAddrSize, bind, Except.bind, pure, Except.pure]
-    simpa using hd
+  cases a32
+  · have hno67' : ¬ (0x67#8 ∈ p.prefixes) := by simpa using hno67
+    simp only [Bool.false_eq_true, ↓reduceIte] at hbk
+    rcases hfields with ⟨hs, hn5, hb⟩ | ⟨s, hs, hn5, hb, hx, hsc⟩
+    · have hn5' : (bits mb 6 2 == 0 && bits mb 0 3 == 5) = false := by
+        simp only [Bool.and_eq_false_iff, beq_eq_false_iff_ne]; by_cases h : bits mb 6 2 = 0 <;> simp_all
+      simp [checkMem, hmodrm, hmod', hm64, hno67, hno67', ha16, hvs, hbk, hik, hs, hn5', hb, wantedAddrSize, bind, Except.bind, pure, Except.pure]
+      simpa using hd
+    · have hn5' : (bits mb 6 2 == 0 && bits s 0 3 == 5) = false := by
+        simp only [Bool.and_eq_false_iff, beq_eq_false_iff_ne]; by_cases h : bits mb 6 2 = 0 <;> simp_all
+      simp [checkMem, hmodrm, hmod', hm64, hno67, hno67', ha16, hvs, hbk, hik, hs, hn5', hb, hx, hsc, wantedAddrSize, bind, Except.bind, pure, Except.pure]
+      simpa using hd
+  · have hno67' : 0x67#8 ∈ p.prefixes := by simpa using hno67
+    simp only [↓reduceIte] at hbk
+    rcases hfields with ⟨hs, hn5, hb⟩ | ⟨s, hs, hn5, hb, hx, hsc⟩
+    · have hn5' : (bits mb 6 2 == 0 && bits mb 0 3 == 5) = false := by
+        simp only [Bool.and_eq_false_iff, beq_eq_false_iff_ne]; by_cases h : bits mb 6 2 = 0 <;> simp_all
+      simp [checkMem, hmodrm, hmod', hm64, hno67, hno67', ha16, hvs, hbk, hik, hs, hn5', hb, wantedAddrSize, bind, Except.bind, pure, Except.pure]
+      simpa using hd
+    · have hn5' : (bits mb 6 2 == 0 && bits s 0 3 == 5) = false := by
+        simp only [Bool.and_eq_false_iff, beq_eq_false_iff_ne]; by_cases h : bits mb 6 2 = 0 <;> simp_all
+      simp [checkMem, hmodrm, hmod', hm64, hno67, hno67', ha16, hvs, hbk, hik, hs, hn5', hb, hx, hsc, wantedAddrSize, bind, Except.bind, pure, Except.pure]
+      simpa using hd
 
-/-- EVEX memory form (64-bit mode, no legacy prefix) -/
-theorem parse_evex_mem (r : Rule) (p0 p1 p2 o mb : BitVec 8) (sib : Option (BitVec 8)) (disp imm : List (BitVec 8))
+/-- at most two legacy prefix bytes (segment override and / or 67) -/
+def PfxList (fw : Bool) (pfx : List (BitVec 8)) : Prop :=
+  pfx = [] ∨ (∃ a, pfx = [a] ∧ isLegacyPrefix a fw = true) ∨ (∃ a b, pfx = [a, b] ∧ isLegacyPrefix a fw = true ∧ isLegacyPrefix b fw = true)
+
+/-- the legacy prefixes in front of a VEX / EVEX prefix are exactly the ones memory operand `m` asks for: its segment override, and 67 iff it
+uses 32-bit address registers (64-bit mode) -/
+structure PfxCounts (pfx : List (BitVec 8)) (m : MemOp) : Prop where
+  c66 : pfx.count 0x66#8 = 0
+  cF3 : pfx.count 0xF3#8 = 0
+  cF2 : pfx.count 0xF2#8 = 0
+  cF0 : pfx.count 0xF0#8 = 0
+  c9B : pfx.count 0x9B#8 = 0
+  cseg : pfx.filter isSegByte = (match segPrefix m.seg with | some s => [s] | Option.none => [])
+  c67 : pfx.count 0x67#8 ≤ 1
+  ccont : pfx.contains 0x67#8 = (wantedAddrSize true m != 64)
+
+/-- EVEX memory form (64-bit mode, optional segment / 67 prefixes) -/
+theorem parse_evex_mem (r : Rule) (pfx : List (BitVec 8)) (p0 p1 p2 o mb : BitVec 8) (sib : Option (BitVec 8)) (disp imm : List (BitVec 8))
+    (hpfx : PfxList (r.pp &&& 8 != 0) pfx)
     (hs : r.space = 2) (hfw : r.pp &&& 8 = 0) (hmk : r.modKind ≠ 0)
     (h3 : bit p0 3 = false) (h2 : bit p1 2 = true)
     (hmod : bits mb 6 2 ≠ 3) (hsib : (bits mb 0 3 == 4) = sib.isSome) (hdl : disp.length = dispLen mb sib)
     (hlen : imm.length = r.immBytes + r.relBytes) (hmoff : r.moff = false) :
-    parse true r (0x62#8 :: p0 :: p1 :: p2 :: o :: mb :: (sib.toList ++ disp ++ imm)) =
-      .ok { prefixes := [], vexKind := 4, R := !bit p0 7, X := !bit p0 6, B := !bit p0 5, R' := !bit p0 4, map := bits p0 0 3,
+    parse true r (pfx ++ 0x62#8 :: p0 :: p1 :: p2 :: o :: mb :: (sib.toList ++ disp ++ imm)) =
+      .ok { prefixes := pfx, vexKind := 4, R := !bit p0 7, X := !bit p0 6, B := !bit p0 5, R' := !bit p0 4, map := bits p0 0 3,
             W := bit p1 7, vvvv := 15 - bits p1 3 4, pp := bits p1 0 2, z := bit p2 7, L := bits p2 5 2, b := bit p2 4,
             V' := !bit p2 3, aaa := bits p2 0 3, opcode := o, modrm := some mb, sib := sib, dispSize := disp.length, disp := leNat disp,
-            addr16 := false, imm := imm, length := 6 + sib.toList.length + disp.length + imm.length } := by
+            addr16 := false, imm := imm, length := pfx.length + 6 + sib.toList.length + disp.length + imm.length } := by
   have hmk' : (r.modKind != 0) = true := by simpa using hmk
-  simp only [parse, takePrefixes, show isLegacyPrefix 0x62#8 (r.pp &&& 8 != 0) = false from by simp [isLegacyPrefix, hfw], hs]
-  simp [-List.append_assoc, h3, h2, hmk', parseModRM_mem _ mb sib disp imm hmod hsib hdl, hlen, hmoff, bind, Except.bind, pure, Except.pure]
-  cases sib <;> simp <;> omega
+  have hnl := show isLegacyPrefix 0x62#8 (r.pp &&& 8 != 0) = false from by simp [isLegacyPrefix, hfw]
+  rcases hpfx with h | ⟨a, h, ha⟩ | ⟨a, b, h, ha, hb⟩ <;> subst h
+  · simp only [parse, takePrefixes, hnl, hs, List.nil_append]
+    simp [-List.append_assoc, h3, h2, hmk', parseModRM_mem _ mb sib disp imm hmod hsib hdl, hlen, hmoff, bind, Except.bind, pure, Except.pure]
+    cases sib <;> simp <;> omega
+  · simp only [parse, takePrefixes, hnl, ha, hs, List.cons_append, List.nil_append]
+    simp [-List.append_assoc, h3, h2, hmk', parseModRM_mem _ mb sib disp imm hmod hsib hdl, hlen, hmoff, bind, Except.bind, pure, Except.pure]
+    cases sib <;> simp <;> omega
+  · simp only [parse, takePrefixes, hnl, ha, hb, hs, List.cons_append, List.nil_append]
+    simp [-List.append_assoc, h3, h2, hmk', parseModRM_mem _ mb sib disp imm hmod hsib hdl, hlen, hmoff, bind, Except.bind, pure, Except.pure]
+    cases sib <;> simp <;> omega
 
 /-- VEX3 memory form -/
-theorem parse_vex3_mem (r : Rule) (b1 b2 o mb : BitVec 8) (sib : Option (BitVec 8)) (disp imm : List (BitVec 8))
+theorem parse_vex3_mem (r : Rule) (pfx : List (BitVec 8)) (b1 b2 o mb : BitVec 8) (sib : Option (BitVec 8)) (disp imm : List (BitVec 8))
+    (hpfx : PfxList (r.pp &&& 8 != 0) pfx)
     (hs : r.space = 1) (hfw : r.pp &&& 8 = 0) (hmk : r.modKind ≠ 0)
     (hmod : bits mb 6 2 ≠ 3) (hsib : (bits mb 0 3 == 4) = sib.isSome) (hdl : disp.length = dispLen mb sib)
     (hlen : imm.length = r.immBytes + r.relBytes) (hmoff : r.moff = false) :
-    parse true r (0xC4#8 :: b1 :: b2 :: o :: mb :: (sib.toList ++ disp ++ imm)) =
-      .ok { prefixes := [], vexKind := 3, R := !bit b1 7, X := !bit b1 6, B := !bit b1 5, map := bits b1 0 5, W := bit b2 7,
+    parse true r (pfx ++ 0xC4#8 :: b1 :: b2 :: o :: mb :: (sib.toList ++ disp ++ imm)) =
+      .ok { prefixes := pfx, vexKind := 3, R := !bit b1 7, X := !bit b1 6, B := !bit b1 5, map := bits b1 0 5, W := bit b2 7,
             vvvv := 15 - bits b2 3 4, L := bits b2 2 1, pp := bits b2 0 2, opcode := o, modrm := some mb, sib := sib, dispSize := disp.length, disp := leNat disp,
-            addr16 := false, imm := imm, length := 5 + sib.toList.length + disp.length + imm.length } := by
+            addr16 := false, imm := imm, length := pfx.length + 5 + sib.toList.length + disp.length + imm.length } := by
   have hmk' : (r.modKind != 0) = true := by simpa using hmk
-  simp only [parse, takePrefixes, show isLegacyPrefix 0xC4#8 (r.pp &&& 8 != 0) = false from by simp [isLegacyPrefix, hfw], hs]
-  simp [-List.append_assoc, hmk', parseModRM_mem _ mb sib disp imm hmod hsib hdl, hlen, hmoff, bind, Except.bind, pure, Except.pure]
-  cases sib <;> simp <;> omega
+  have hnl := show isLegacyPrefix 0xC4#8 (r.pp &&& 8 != 0) = false from by simp [isLegacyPrefix, hfw]
+  rcases hpfx with h | ⟨a, h, ha⟩ | ⟨a, b, h, ha, hb⟩ <;> subst h
+  · simp only [parse, takePrefixes, hnl, hs, List.nil_append]
+    simp [-List.append_assoc, hmk', parseModRM_mem _ mb sib disp imm hmod hsib hdl, hlen, hmoff, bind, Except.bind, pure, Except.pure]
+    cases sib <;> simp <;> omega
+  · simp only [parse, takePrefixes, hnl, ha, hs, List.cons_append, List.nil_append]
+    simp [-List.append_assoc, hmk', parseModRM_mem _ mb sib disp imm hmod hsib hdl, hlen, hmoff, bind, Except.bind, pure, Except.pure]
+    cases sib <;> simp <;> omega
+  · simp only [parse, takePrefixes, hnl, ha, hb, hs, List.cons_append, List.nil_append]
+    simp [-List.append_assoc, hmk', parseModRM_mem _ mb sib disp imm hmod hsib hdl, hlen, hmoff, bind, Except.bind, pure, Except.pure]
+    cases sib <;> simp <;> omega
 
 /-- VEX2 memory form -/
-theorem parse_vex2_mem (r : Rule) (b1 o mb : BitVec 8) (sib : Option (BitVec 8)) (disp imm : List (BitVec 8))
+theorem parse_vex2_mem (r : Rule) (pfx : List (BitVec 8)) (b1 o mb : BitVec 8) (sib : Option (BitVec 8)) (disp imm : List (BitVec 8))
+    (hpfx : PfxList (r.pp &&& 8 != 0) pfx)
     (hs : r.space = 1) (hfw : r.pp &&& 8 = 0) (hmk : r.modKind ≠ 0)
     (hmod : bits mb 6 2 ≠ 3) (hsib : (bits mb 0 3 == 4) = sib.isSome) (hdl : disp.length = dispLen mb sib)
     (hlen : imm.length = r.immBytes + r.relBytes) (hmoff : r.moff = false) :
-    parse true r (0xC5#8 :: b1 :: o :: mb :: (sib.toList ++ disp ++ imm)) =
-      .ok { prefixes := [], vexKind := 2, R := !bit b1 7, vvvv := 15 - bits b1 3 4, L := bits b1 2 1, pp := bits b1 0 2, map := 1, opcode := o, modrm := some mb, sib := sib, dispSize := disp.length, disp := leNat disp,
-            addr16 := false, imm := imm, length := 4 + sib.toList.length + disp.length + imm.length } := by
+    parse true r (pfx ++ 0xC5#8 :: b1 :: o :: mb :: (sib.toList ++ disp ++ imm)) =
+      .ok { prefixes := pfx, vexKind := 2, R := !bit b1 7, vvvv := 15 - bits b1 3 4, L := bits b1 2 1, pp := bits b1 0 2, map := 1, opcode := o, modrm := some mb, sib := sib, dispSize := disp.length, disp := leNat disp,
+            addr16 := false, imm := imm, length := pfx.length + 4 + sib.toList.length + disp.length + imm.length } := by
   have hmk' : (r.modKind != 0) = true := by simpa using hmk
-  simp only [parse, takePrefixes, show isLegacyPrefix 0xC5#8 (r.pp &&& 8 != 0) = false from by simp [isLegacyPrefix, hfw], hs]
-  simp [-List.append_assoc, hmk', parseModRM_mem _ mb sib disp imm hmod hsib hdl, hlen, hmoff, bind, Except.bind, pure, Except.pure]
-  cases sib <;> simp <;> omega
+  have hnl := show isLegacyPrefix 0xC5#8 (r.pp &&& 8 != 0) = false from by simp [isLegacyPrefix, hfw]
+  rcases hpfx with h | ⟨a, h, ha⟩ | ⟨a, b, h, ha, hb⟩ <;> subst h
+  · simp only [parse, takePrefixes, hnl, hs, List.nil_append]
+    simp [-List.append_assoc, hmk', parseModRM_mem _ mb sib disp imm hmod hsib hdl, hlen, hmoff, bind, Except.bind, pure, Except.pure]
+    cases sib <;> simp <;> omega
+  · simp only [parse, takePrefixes, hnl, ha, hs, List.cons_append, List.nil_append]
+    simp [-List.append_assoc, hmk', parseModRM_mem _ mb sib disp imm hmod hsib hdl, hlen, hmoff, bind, Except.bind, pure, Except.pure]
+    cases sib <;> simp <;> omega
+  · simp only [parse, takePrefixes, hnl, ha, hb, hs, List.cons_append, List.nil_append]
+    simp [-List.append_assoc, hmk', parseModRM_mem _ mb sib disp imm hmod hsib hdl, hlen, hmoff, bind, Except.bind, pure, Except.pure]
+    cases sib <;> simp <;> omega
 
+
+/-- the decorations of a call, as the monitor reads them -/
+def decorOf (k : Nat) (z er sae : Bool) (rc : Nat) : Decor := { k := k, z := z, er := er, sae := sae, rc := rc }
+
+/-- the form allows the decorations -/
+structure DecorAllowed (rule : Rule) (k : Nat) (z er sae : Bool) : Prop where
+  hk : k ≠ 0 → rule.kmask = true
+  hz : z = true → rule.zmask = true
+  her : er = true → rule.er = true
+  hsae : sae = true → (rule.sae = true ∨ rule.er = true)
 
 /-- what the parser returned for a VEX-family MEMORY form, in terms of the rule -/
-structure VexParsedM (rule : Rule) (p : Parsed) (mb : BitVec 8) : Prop where
+structure VexParsedM (rule : Rule) (p : Parsed) (mb : BitVec 8) (pfx : List (BitVec 8)) (k : Nat) (z bb : Bool) : Prop where
   hvk : p.vexKind = 2 ∨ p.vexKind = 3 ∨ p.vexKind = 4 ∨ p.vexKind = 5
-  hpfx : p.prefixes = []
+  hpfx : p.prefixes = pfx
   hrex : p.rex = none
   hmodrm : p.modrm = some mb
   hmod : bits mb 6 2 ≠ 3
@@ -680,7 +749,8 @@ structure VexParsedM (rule : Rule) (p : Parsed) (mb : BitVec 8) : Prop where
   hw : wWant rule = 2 ∨ p.W = (wWant rule == 1)
   hl : rule.l = 3 ∨ p.L = rule.l
   hl1 : p.vexKind ≠ 4 → p.L ≤ 1
-  hev : p.vexKind = 4 → (p.aaa = 0 ∧ p.z = false ∧ p.b = false ∧ p.map < 8)
+  hev : p.vexKind = 4 → (p.aaa = k ∧ p.z = z ∧ p.b = bb ∧ p.map < 8)
+  hnk : p.vexKind ≠ 4 → k = 0 ∧ z = false ∧ bb = false
 
 /-- rule side for memory forms: ModRM.mod may (or must) be a memory mode -/
 structure VexRuleM (rule : Rule) (nimm : Nat) : Prop where
@@ -697,21 +767,23 @@ structure VexRuleM (rule : Rule) (nimm : Nat) : Prop where
   hrev : rule.immRev = false
   hosz : rule.osz = 0
 
-/-- shape [reg, vvvv, MEM] with a `[base64 + disp]` operand without segment / broadcast: all conditions of the monitor hold -/
-theorem vex_rvm_mem_formOk (ctx : Spec.X86.Ctx) (rule : Rule) (p : Parsed) (mb : BitVec 8) (bytes : List (BitVec 8))
-    (k0 k1 : RegKind) (f0 f1 f2 : FormOp) (i0 i1 : Nat) (m : MemOp)
+/-- shape [reg, vvvv, MEM] with a 64-bit-addressed, non-VSIB memory operand without segment / broadcast: all conditions of the monitor hold -/
+theorem vex_rvm_mem_formOk (ctx : Spec.X86.Ctx) (rule : Rule) (p : Parsed) (mb : BitVec 8) (bytes pfx : List (BitVec 8))
+    (k0 k1 : RegKind) (f0 f1 f2 : FormOp) (i0 i1 : Nat) (m : MemOp) (k : Nat) (z bb : Bool)
     (hm64 : ctx.mode64 = true) (hmode : (rule.modes &&& 2 != 0) = true) (hk0 : PlainKind k0) (hk1 : PlainKind k1)
     (R : VexRuleM rule 0) (hf0 : f0.role = .reg) (hf1 : f1.role = .vvvv) (hf2 : f2.role = .rm)
-    (hbk : m.baseKind = .gpq) (hik : m.indexKind = .none) (hseg : m.seg = 0) (hbc : m.bcst = 0)
+    (K : PfxCounts pfx m) (D : DecorAllowed rule k z false false) (hvs : vsibOf m = .none) (hbc : (m.bcst != 0) = bb) (hbr : bb = true → rule.bcst = true)
     (hal : alignOps rule.oszEff rule.ops [.reg k0 i0, .reg k1 i1, .mem m] =
            some [(f0, some (.reg k0 i0)), (f1, some (.reg k1 i1)), (f2, some (.mem m))])
-    (hparse : parse true rule bytes = .ok p) (P : VexParsedM rule p mb)
+    (hparse : parse true rule bytes = .ok p) (P : VexParsedM rule p mb pfx k z bb)
     (hreg : regNum p.R' p.R (bits mb 3 3) = i0)
     (hvv : regNum p.V' false p.vvvv = i1)
     (hcm : checkMem ctx rule p m = .ok ()) :
-    formOk ctx rule [.reg k0 i0, .reg k1 i1, .mem m] {} bytes = true := by
-  obtain ⟨hvk, hpfx, hrex, hmodrm, hmod, hop, hmap, hpp, hw, hl, hl1, hev⟩ := P
+    formOk ctx rule [.reg k0 i0, .reg k1 i1, .mem m] (decorOf k z false false 0) bytes = true := by
+  obtain ⟨hvk, hpfx, hrex, hmodrm, hmod, hop, hmap, hpp, hw, hl, hl1, hev, hnk⟩ := P
+  obtain ⟨dk, dz, -, -⟩ := D
   obtain ⟨hs, hpp8, hri, hmk, hmr, hmrm, himm, hrel, hmoff, ha67, hrev, hosz⟩ := R
+  obtain ⟨c66, cF3, cF2, cF0, c9B, cseg, c67, ccont⟩ := K
   have hleg : isLegacySpace rule = false := by rcases hs with h | h | h <;> simp [isLegacySpace, h]
   have hs4 : (rule.space == 4) = false := by rcases hs with h | h | h <;> simp [h]
   have hvk0 : (p.vexKind == 0) = false := by rcases hvk with h | h | h | h <;> simp [h]
@@ -719,13 +791,15 @@ theorem vex_rvm_mem_formOk (ctx : Spec.X86.Ctx) (rule : Rule) (p : Parsed) (mb :
   simp only [formOk, conds, hm64, hal, hparse, ↓reduceIte, hmode]
   simp only [allOk_cons, allOk_append, decorConds, headConds, prefixConds, modrmConds, operandConds, opConds, tailConds, hf0, hf1, hf2,
     regConds_plain _ _ _ _ _ hk0, regConds_plain _ _ _ _ _ hk1, allOk_nil, memOperandOf, implMemOf, usesVvvv, memDestOf, hcm, Spec.X86.ofExcept,
-    hasBcst, hleg, hri, hmodrm, hpfx, hrex, List.foldl, List.find?]
-  simp [hop, hmap, hpp, hreg, hvv, hmod', hmr, hmrm, hs4, hvk0, hpp8, ha67, hbc, hseg, hbk, hik, wantedAddrSize, segPrefix, vsibOf, hm64, allOk]
+    hasBcst, hleg, hri, hmodrm, hpfx, hrex, List.foldl, List.find?, c66, cF3, cF2, cF0, c9B, cseg, ccont, decorOf]
+  simp [hop, hmap, hpp, hreg, hvv, hmod', hmr, hmrm, hs4, hvk0, hpp8, ha67, hbc, hvs, hm64, allOk]
   have hvk0' : ¬ p.vexKind = 0 := by rcases hvk with h | h | h | h <;> omega
   and_intros
   all_goals first
     | exact hw
     | exact hvk0'
+    | exact c67
+    | (refine Or.inr ?_; simpa using ccont)
     | (refine Or.inl ?_; rcases hs with h | h | h <;> omega)
     | (rcases hmk with h | h <;> omega)
     | (rcases hl with h | h
@@ -735,10 +809,20 @@ theorem vex_rvm_mem_formOk (ctx : Spec.X86.Ctx) (rule : Rule) (p : Parsed) (mb :
        · left; omega
        · right; exact hl1 h4)
     | (by_cases h4 : p.vexKind = 4
-       · obtain ⟨a, z, b, mm⟩ := hev h4
+       · obtain ⟨a, zz, b, mm⟩ := hev h4
          rw [hmap] at mm
-         simp [h4, allOk, a, z, b, mm]
-       · simp [h4, allOk])
+         simp [h4, allOk, a, zz, b, mm]
+       · obtain ⟨k0', z0', b0'⟩ := hnk h4
+         simp [h4, allOk, k0', z0', b0'])
+    | (cases bb
+       · exact Or.inl rfl
+       · exact Or.inr (hbr rfl))
+    | (by_cases h : k = 0
+       · exact Or.inl h
+       · exact Or.inr (dk h))
+    | (cases z
+       · exact Or.inl rfl
+       · exact Or.inr (dz rfl))
     | exact Or.inl (Or.inr (Or.inr (Or.inl ‹_›)))
     | exact Or.inl (Or.inr (Or.inr hf1))
     | rfl
